@@ -24,7 +24,16 @@ type Case struct {
 
 // check canonicalizes in and compares with the reference serialization of its tree and,
 // when given, with the expected bytes of the base tree it is a respelling of.
-func check(in []byte, want []byte) string {
+func check(in []byte, want []byte) (msg string) {
+	defer func() {
+		if p := recover(); p != nil {
+			msg = fmt.Sprintf("library panic: %v", p)
+		}
+	}()
+	return checkInner(in, want)
+}
+
+func checkInner(in []byte, want []byte) string {
 	tree := refjson.Tree(in, refjson.Opts{})
 	if tree == nil {
 		return "HARNESS: generated text is not valid I-JSON"
@@ -53,6 +62,13 @@ func check(in []byte, want []byte) string {
 	if !bytes.Equal(v, ref) {
 		return fmt.Sprintf("Canonicalize = %q, RFC 8785 reference = %q", v, ref)
 	}
+	// white space around the whole text (every white-space character in the leading and trailing run) changes nothing
+	for _, pad := range [][2]string{{"\r", ""}, {"\n\t \r", "\r\n"}, {"\r\n", " \t"}} {
+		p := jsontext.Value(pad[0] + string(in) + pad[1])
+		if err := p.Canonicalize(); err != nil || !bytes.Equal(p, ref) {
+			return fmt.Sprintf("with the white space %q before and %q after the text: Canonicalize = %q (%v), RFC 8785 reference = %q", pad[0], pad[1], p, err, ref)
+		}
+	}
 	// the result denotes the same value (numbers as float64) and is a fixed point
 	out := refjson.Tree(v, refjson.Opts{})
 	if out == nil || !refjson.Equal(tree, out, refjson.EqOpts{NumByFloat: true, IgnoreOrder: true}) {
@@ -78,6 +94,10 @@ func Replay(r *evid.Run, raw json.RawMessage) {
 	r.Evaluations.Add(1)
 	r.Nontrivial.Add(2)
 	r.Sample(cs)
+	var size int
+	if n, _ := fmt.Sscanf(cs.Family, "history:%d", &size); n == 1 && size > 0 && size <= 1<<20 {
+		check(bigObject(size), nil)
+	}
 	if msg := check(cs.Input, nil); msg != "" {
 		fmt.Println("replay fails:", msg)
 		r.Violation("replay", msg, cs, nil)
@@ -195,6 +215,55 @@ func Run(r *evid.Run) {
 	stringsFam(r)
 	trees(r, N)
 	wide(r)
+	histories(r)
+}
+
+// histories: what an earlier call leaves behind (recycled member lists of every size class) must not reach a
+// later one: a large object, then small unsorted ones, on the same goroutine.
+func histories(r *evid.Run) {
+	var n int64
+	smalls := []string{`{"b":1,"a":{"d":2,"c":3}}`, `[{"b":1,"a":2},{"y":[],"x":{}}]`, `{"a":1,"b":2}`, `{"10":1,"2":{"b":0,"a":0},"1":3}`}
+	for _, size := range []int{1, 63, 64, 600, 700, 1023, 1024, 1025, 1200, 5000} {
+		big := bigObject(size)
+		for rep := 0; rep < 3; rep++ {
+			n++
+			r.Evaluations.Add(1)
+			if msg := check(big, nil); msg != "" {
+				report(r, "history-large", big[:min(len(big), 200)], fmt.Sprintf("object of %d members in descending order: %s", size, trunc(msg)))
+				break
+			}
+			for _, sm := range smalls {
+				n++
+				r.Evaluations.Add(1)
+				if msg := check([]byte(sm), nil); msg != "" {
+					cs := Case{Input: []byte(sm), InputText: sm, Family: fmt.Sprintf("history:%d", size)}
+					r.Violation(fmt.Sprintf("c13|history|%d|%s", size, sm), fmt.Sprintf("after canonicalizing an object of %d members: %s", size, msg), cs, nil)
+				}
+			}
+		}
+	}
+	r.Nontrivial.Add(n)
+	r.Bound("histories: an object of {1, 63, 64, 600, 700, 1023, 1024, 1025, 1200, 5000} members in descending order, then 4 small texts (3 unsorted, nested), three times over on one goroutine: every text canonicalizes as it does alone")
+}
+
+func bigObject(size int) []byte {
+	var sb strings.Builder
+	sb.WriteString("{")
+	for i := size - 1; i >= 0; i-- {
+		fmt.Fprintf(&sb, `"k%05d":%d`, i, i%7)
+		if i > 0 {
+			sb.WriteString(",")
+		}
+	}
+	sb.WriteString("}")
+	return []byte(sb.String())
+}
+
+func trunc(s string) string {
+	if len(s) > 300 {
+		return s[:300] + "..."
+	}
+	return s
 }
 
 // wide: objects with many members (around and beyond the sizes at which the implementation changes its
